@@ -112,6 +112,15 @@ def lazy_source(reg, n, keyfn, kind):
         async def aclose(self):
             self.i = n
 
+    if kind == "sized":
+        class SizedSrc(Src):
+            """a live stream that reports its current backlog as its length (like a queue): says nothing about
+            how many items will come"""
+
+            def __len__(self):
+                return min(2, n - self.i)
+
+        return SizedSrc()
     return Src()
 
 
@@ -176,7 +185,7 @@ def stream_cases(draw, name, tier):
             "k": draw(st.integers(1, 6) if name not in ("batched", "nlargest", "nsmallest")
                       else st.one_of(st.integers(1, 6), st.integers(7, 40))),
             "flag": draw(st.booleans()),
-            "src": draw(st.sampled_from(["agen", "aclass", "iter"])),
+            "src": draw(st.sampled_from(["agen", "aclass", "iter", "sized"])),
             "keys": draw(st.sampled_from(["inc", "const", "mod"]))}
 
 
@@ -245,8 +254,32 @@ def check_stream(case):
         orig_lazy = lazy_source
 
         def probing_source():
+            keyfn = keyfn_of(case)
+            if case["src"] in ("sized", "aclass"):
+                class Probing:
+                    def __init__(self):
+                        self.i = 0
+
+                    def __aiter__(self):
+                        return self
+
+                    async def __anext__(self):
+                        if self.i >= n:
+                            raise StopAsyncIteration
+                        if self.i % 10 == 0 and self.i:
+                            probe(self.i)
+                        self.i += 1
+                        return reg.new(keyfn(self.i - 1))
+
+                    async def aclose(self):
+                        self.i = n
+
+                if case["src"] == "sized":
+                    # a live stream reporting its current backlog as its length (like a queue)
+                    Probing.__len__ = lambda self: min(2, n - self.i)
+                return Probing()
+
             async def gen():
-                keyfn = keyfn_of(case)
                 for i in range(n):
                     if i % 10 == 0 and i:
                         probe(i)
